@@ -5,12 +5,13 @@ pub mod c05;
 pub mod c12;
 pub mod c13;
 pub mod c17;
+pub mod c18;
 pub mod vmcommon;
 
 use crate::kernel::Check;
 
 pub fn registry() -> Vec<&'static dyn Check> {
-    vec![&c02::C02, &c03::C03, &c04::C04, &c05::C05, &c12::C12, &c13::C13, &c17::C17]
+    vec![&c02::C02, &c03::C03, &c04::C04, &c05::C05, &c12::C12, &c13::C13, &c17::C17, &c18::C18]
 }
 
 pub fn find(id: &str) -> Option<&'static dyn Check> {
